@@ -40,6 +40,8 @@ pub enum C14Case {
 
 struct Sink {
     vectored: bool,
+    /// refuse to grow beyond this many bytes (a writer that re-sends data must not exhaust memory)
+    cap: usize,
     data: Vec<u8>,
     chunk: Chunk,
     state: u64,
@@ -71,6 +73,9 @@ impl Write for Sink {
         if buf.is_empty() {
             return Ok(0);
         }
+        if self.data.len() > self.cap {
+            return Err(io::Error::new(io::ErrorKind::Other, "sink full: far more bytes than the canonical form were written"));
+        }
         let mut n = self.next_chunk().min(buf.len());
         if let Some(f) = self.fail_at {
             if self.data.len() >= f {
@@ -100,6 +105,9 @@ impl Write for Sink {
         let total: usize = bufs.iter().map(|b| b.len()).sum();
         if total == 0 {
             return Ok(0);
+        }
+        if self.data.len() > self.cap {
+            return Err(io::Error::new(io::ErrorKind::Other, "sink full: far more bytes than the canonical form were written"));
         }
         let mut n = self.next_chunk().min(total);
         if let Some(f) = self.fail_at {
@@ -278,7 +286,7 @@ fn inner(case: &C14Case, o: &mut Outcome) -> Result<(), (String, String)> {
             if *vectored {
                 o.label("vectored-sink");
             }
-            let mut sink = Sink { vectored: *vectored, data: vec![], chunk: chunk.clone(), state: if let Chunk::Seeded(s) = chunk { *s } else { 0 }, calls: 0, interrupt_every: *interrupt_every, fail_at: fail_at.map(|f| f as usize), short_accepts: 0 };
+            let mut sink = Sink { vectored: *vectored, cap: canonical.len() * 2 + 4096, data: vec![], chunk: chunk.clone(), state: if let Chunk::Seeded(s) = chunk { *s } else { 0 }, calls: 0, interrupt_every: *interrupt_every, fail_at: fail_at.map(|f| f as usize), short_accepts: 0 };
             let r = panics::catch(|| if *metadata_only { pkg.metadata.write(&mut sink) } else { pkg.write(&mut sink) });
             if *interrupt_every > 0 {
                 o.label("interrupted");
